@@ -204,7 +204,7 @@ def frac_str(v):
         return str(v.numerator)
     d, e = v.denominator, 0
     num = v.numerator
-    while d % 10 != 1 and e < 12 and (10 ** e) % d != 0:
+    while d % 10 != 1 and e < 40 and (10 ** e) % d != 0:
         e += 1
     scaled = num * (10 ** e) // d
     sign = "-" if scaled < 0 else ""
